@@ -32,6 +32,17 @@ pub fn run(ctx: &mut Ctx) {
             _ => semantic_sdd_case::<{ primes::U64_LARGEST }>(ctx, rng, true),
         });
     }
+    // semantic SDD builders over vtrees whose variables are spread over up to 200 labels
+    for case in ctx.cases("semantic_sdd_wide", 150, true) {
+        ctx.run_case("semantic_sdd_wide", case, |ctx, rng| {
+            let _g = crate::gen::LabelMapGuard::new(crate::gen::random_label_map(6, rng));
+            ctx.count("semantic_builders_over_spread_labels", 1);
+            match case % 2 {
+                0 => semantic_sdd_case::<{ primes::U32_SMALL }>(ctx, rng, false),
+                _ => semantic_sdd_case::<{ primes::U64_LARGEST }>(ctx, rng, true),
+            }
+        });
+    }
     for case in ctx.cases("semantic_ddnnf", 500, true) {
         ctx.run_case("semantic_ddnnf", case, |ctx, rng| match case % 2 {
             0 => semantic_ddnnf_case::<{ primes::U32_SMALL }>(ctx, rng, false),
@@ -266,7 +277,7 @@ fn semantic_sdd_case<const P: u128>(ctx: &mut Ctx, rng: &mut Rng, check_function
     let mut w = SddWalker::new(n);
     let mut pool: Vec<(SddPtr, Tt)> = vec![(SddPtr::PtrFalse, Tt::konst(n, false)), (SddPtr::PtrTrue, Tt::konst(n, true))];
     for v in 0..n {
-        pool.push((SddPtr::Var(VarLabel::new(v as u64), true), Tt::var(n, v)));
+        pool.push((SddPtr::Var(crate::gen::lab(v), true), Tt::var(n, v)));
     }
     // pool indices of gen_sdd_history refer to a pool that grows by one per op; after
     // filtering, clamp indices to the current pool
@@ -283,7 +294,7 @@ fn semantic_sdd_case<const P: u128>(ctx: &mut Ctx, rng: &mut Rng, check_function
             }};
         }
         let (got, exp) = match op {
-            Op::Var(v, p) => (b.var(VarLabel::new(*v as u64), *p), Tt::lit(n, *v, *p)),
+            Op::Var(v, p) => (b.var(crate::gen::lab(*v), *p), Tt::lit(n, *v, *p)),
             Op::Not(a) => {
                 let (p, t) = arg!(a, pool);
                 (b.negate(p), t.not())
@@ -300,11 +311,11 @@ fn semantic_sdd_case<const P: u128>(ctx: &mut Ctx, rng: &mut Rng, check_function
             }
             Op::Cond(x, v, val) => {
                 let (p, t) = arg!(x, pool);
-                (b.condition(p, VarLabel::new(*v as u64), *val), t.cofactor(*v, *val))
+                (b.condition(p, crate::gen::lab(*v), *val), t.cofactor(*v, *val))
             }
             Op::Exists(x, v) => {
                 let (p, t) = arg!(x, pool);
-                (b.exists(p, VarLabel::new(*v as u64)), t.exists(*v))
+                (b.exists(p, crate::gen::lab(*v)), t.exists(*v))
             }
             _ => unreachable!(),
         };
@@ -322,6 +333,29 @@ fn semantic_sdd_case<const P: u128>(ctx: &mut Ctx, rng: &mut Rng, check_function
         }
         // the pool keeps what the builder returned, with the function it really denotes
         pool.push((got, got_tt));
+    }
+    // the builder's own accessors: cached hash == recomputed hash == the defining sum under the
+    // builder's weight map (the function the node really denotes)
+    for (p, t) in pool.iter().rev().take(6) {
+        let cached = b.cached_semantic_hash(*p).value();
+        let fresh = p.semantic_hash(b.map()).value();
+        let mut total = 0u128;
+        for a in 0..(1usize << n) {
+            if t.get(a) {
+                let mut pr = 1u128 % P;
+                for v in 0..n {
+                    let (l, h) = b.map().var_weight(crate::gen::lab(v));
+                    pr = mulmod(pr, if (a >> v) & 1 == 1 { h.value() } else { l.value() }, P);
+                }
+                total = addmod(total, pr, P);
+            }
+        }
+        ctx.count("builder_hash_accessor_checks", 1);
+        if cached != fresh || fresh != total {
+            ctx.violation("semantic.sdd.builder_hash", "SemanticSddBuilder::cached_semantic_hash / map(): cached, recomputed and defining-sum hashes differ",
+                json!({"cached": cached.to_string(), "recomputed": fresh.to_string(), "defining_sum": total.to_string(), "function": t.hex(), "input": info}));
+            break;
+        }
     }
     for (p, t) in pool.iter() {
         if t.is_trivial() && !matches!(p, SddPtr::Var(..) | SddPtr::PtrTrue | SddPtr::PtrFalse) {
